@@ -21,8 +21,9 @@ import typing as t
 from .. import astq
 from ..cfg import CFG, Node, cfg_of
 from ..dataflow import Def, ReachingDefs, bound_in_enclosing_comp
-from ..loader import AnalysisError, FuncInfo, const_str, dotted, is_self_attr, nested_funcs, norm, walk_no_nested
+from ..loader import AnalysisError, FuncInfo, const_str, dotted, is_self_attr, norm, walk_no_nested
 from ..report import Ctx
+from ._c12_helpers import matcher_rules
 
 LEVEL_TEXT = (
     "Static decision of structural clauses of C12 on /repo's current source, by abstract interpretation of MapAdapter.match "
@@ -34,8 +35,11 @@ LEVEL_TEXT = (
     "handed to the matcher is '/' + the request path with leading slashes stripped; (R12.3) the query position of each of "
     "those URLs receives the query_args of this match() call, either unchanged or through the mapping encoder; (R12.4) "
     "encode_query_args returns a str argument itself; (R12.5) in the state machine matcher a slash redirect is proposed "
-    "only for a rule that admits the request method and websocket flag, and a merged-slash redirect only after the merged "
-    "path matched. Decided on all paths of the analysed functions. NOT decided: that the redirect target matches without "
+    "only for a rule that admits the request method and websocket flag (decided by walking the loop iteration's CFG under "
+    "every valuation of the admission facts, so independent of how the conditions are spelled), and a merged-slash redirect "
+    "only after the merged path matched; (R12.6) where the matcher turns the missing-slash signal of a walk of path P into a "
+    "redirect, the target is that same P + '/' (same expression, same reaching definitions). Decided on all paths of the "
+    "analysed functions. NOT decided: that the redirect target matches without "
     "a further redirect and denotes the same endpoint and arguments (behavioural: depends on the rule set), value-level "
     "correctness of quote()/_urlencode, and redirect_to targets (excluded by the property)."
 )
@@ -620,6 +624,7 @@ def run(ctx: Ctx) -> None:
     ctx.rule("R12.3", "the query position of every router-made redirect URL receives the query_args of this match() call, unchanged or through the mapping encoder")
     ctx.rule("R12.4", "MapAdapter.encode_query_args returns a str argument itself; only non-str arguments are encoded")
     ctx.rule("R12.5", "the matcher proposes a slash redirect only for a rule that admits the request method and websocket flag, and a merged-slash redirect only after the merged path matched")
+    ctx.rule("R12.6", "a missing-slash signal raised while walking path P is turned into a redirect to that same P + '/' (not to another path value such as the merged-slash variant)")
 
     ip = Interp(ctx)
     match = repo.func(f"{ADAPTER}.match")
@@ -670,7 +675,9 @@ def run(ctx: Ctx) -> None:
                 excluded.append(ex)
             else:
                 router.append((r, fr))
-    ctx.floor("R12.1", "router-made RequestRedirect sites reached from MapAdapter.match", len(router), 3)
+    # floor 1: the sites need not stay three separate statements (a refactoring may merge two of them); completeness is
+    # the obligation below that no RequestRedirect is constructed outside the analysed call tree
+    ctx.floor("R12.1", "router-made RequestRedirect sites reached from MapAdapter.match", len(router), 1)
     ctx.note(f"R12.1: {len(excluded)} RequestRedirect site(s) under the application-supplied redirect_to branch excluded: {excluded}")
     # no RequestRedirect is constructed anywhere else in the routing package
     for m in sorted(repo.modules.values(), key=lambda m: m.name):
@@ -706,7 +713,8 @@ def run(ctx: Ctx) -> None:
         qfact = "; ".join(f"{u.desc()}: query position receives {sorted(n + (' (unchanged)' if raw else ' (transformed)') for n, raw in u.query) or 'nothing'}" for u in urls) or "no URL shape"
         ctx.ob("R12.3", f"redirect {sid}: query position receives match()'s query_args unchanged or mapping-encoded", qok, qfact, fr.fi, r, f"redirect {sid} query")
 
-    ctx.floor("R12.1", "URL assembly sites reached from the redirect sites", len(ip.url_sites), 2)
+    # floor 1: every redirect site above already owes a positional assembly; two redirects may share one assembly helper
+    ctx.floor("R12.1", "URL assembly sites reached from the redirect sites", len(ip.url_sites), 1)
     for u in sorted(ip.url_sites.values(), key=lambda u: (u.where.fq, getattr(u.site, "lineno", 0))):
         ctx.ob("R12.1", f"{u.where.qualname}: path position of {u.form}", u.path_ok, u.path_fact, u.where, u.site, f"{u.where.qualname} path position [{u.form.split('(')[0].split(' ')[0]}]")
 
@@ -734,8 +742,8 @@ def run(ctx: Ctx) -> None:
     _matcher_path(ctx, ip, top)
     # ---------------- R12.4 ----------------------------------------------------
     _encode_query_args(ctx, ip)
-    # ---------------- R12.5 ----------------------------------------------------
-    _matcher_proposals(ctx)
+    # ---------------- R12.5 / R12.6 (wzsa/rules/_c12_helpers.py) ------------------
+    matcher_rules(ctx)
 
 
 # ---------------------------------------------------------------------
@@ -860,186 +868,3 @@ def _encode_query_args(ctx: Ctx, ip: Interp) -> None:
         # no isinstance test at all: every return must pass a str through
         raise AnalysisError("encode_query_args: no isinstance(<arg>, str) test found (expected shape absent)")
     ctx.floor("R12.4", "returns of encode_query_args on the str branch", n_str, 1)
-
-
-# ---------------------------------------------------------------------
-# R12.5
-
-
-def _loop_var(loop: ast.For) -> str | None:
-    return loop.target.id if isinstance(loop.target, ast.Name) else None
-
-
-def _admission_edges(g: CFG, loop: ast.For, var: str, outer_params: set[str], attr: str) -> list[tuple[Node, str]]:
-    """edges inside the loop on which `<var>` is known to admit the request: methods (None or contains the method) /
-    websocket (equal to the flag)."""
-    out: list[tuple[Node, str]] = []
-    inside = {id(n) for st in loop.body for n in ast.walk(st)}
-    for tn in g.tests():
-        if tn.kind != "test" or tn.ast is None or id(tn.ast) not in inside:
-            continue
-        cp = astq.cmp_parts(tn.ast)
-        if cp is None:
-            continue
-        left, op, right = cp
-
-        def is_attr(x: ast.AST) -> bool:
-            return isinstance(x, ast.Attribute) and x.attr == attr and astq.is_name(x.value, var)
-
-        def is_req(x: ast.AST) -> bool:
-            return isinstance(x, ast.Name) and x.id in outer_params
-
-        if attr == "methods":
-            if is_req(left) and is_attr(right) and isinstance(op, ast.In):
-                out.append((tn, "T"))
-            elif is_req(left) and is_attr(right) and isinstance(op, ast.NotIn):
-                out.append((tn, "F"))
-            elif is_attr(left) and astq.is_none(right) and isinstance(op, ast.Is):
-                out.append((tn, "T"))
-            elif is_attr(left) and astq.is_none(right) and isinstance(op, ast.IsNot):
-                out.append((tn, "F"))
-        else:
-            if (is_req(left) and is_attr(right)) or (is_attr(left) and is_req(right)):
-                if isinstance(op, ast.Eq):
-                    out.append((tn, "T"))
-                elif isinstance(op, ast.NotEq):
-                    out.append((tn, "F"))
-    return out
-
-
-def _matcher_proposals(ctx: Ctx) -> None:
-    repo = ctx.repo
-    mm = repo.func(f"{MATCHER}.match")
-    mcls = repo.cls(MATCHER)
-    rule_cls = repo.cls("routing.rules.Rule")
-    rinit = rule_cls.methods.get("__init__")
-    for attr in ("methods", "websocket", "strict_slashes"):
-        if rinit is None or not any(is_self_attr(n, attr) and isinstance(n.ctx, ast.Store) for n in ast.walk(rinit.node)):
-            raise AnalysisError(f"Rule.__init__ does not set self.{attr}")
-
-    # every function of the matcher class, nested ones included, with its own CFG
-    graphs: dict[int, CFG] = {}
-    owner_fi: dict[int, FuncInfo] = {}
-    funcs: list[ast.AST] = []
-    for fi in mcls.methods.values():
-        ctx.saw(fi)
-        for f in [fi.node] + list(nested_funcs(fi.node).values()):
-            funcs.append(f)
-            graphs[id(f)] = cfg_of(fi) if f is fi.node else CFG(f)
-            owner_fi[id(f)] = fi
-
-    def owner(n: ast.AST) -> ast.AST:
-        cur = astq.parent(n)
-        while cur is not None and not (isinstance(cur, (ast.FunctionDef, ast.AsyncFunctionDef)) and id(cur) in graphs):
-            cur = astq.parent(cur)
-        if cur is None:
-            raise AnalysisError("statement outside the analysed matcher functions")
-        return cur
-
-    def request_params(fn: ast.AST) -> set[str]:
-        """parameters of the function and of the functions enclosing it (the request's method / websocket flag)."""
-        out: set[str] = set()
-        cur: ast.AST | None = fn
-        while cur is not None:
-            if isinstance(cur, (ast.FunctionDef, ast.AsyncFunctionDef)):
-                a = cur.args
-                out |= {x.arg for x in a.posonlyargs + a.args + a.kwonlyargs}
-            cur = astq.parent(cur)
-        out.discard("self")
-        return out
-
-    def handler_names(h: ast.ExceptHandler) -> set[str]:
-        if h.type is None:
-            return set()
-        return {(dotted(x) or "?").rsplit(".", 1)[-1] for x in (h.type.elts if isinstance(h.type, ast.Tuple) else [h.type])}
-
-    # the exception(s) that signal "slash required": those whose handler raises RequestPath; the calls they protect
-    signals: set[str] = set()
-    matcher_calls: set[str] = set()
-    for f in funcs:
-        for tr in walk_no_nested(f):
-            if not isinstance(tr, ast.Try):
-                continue
-            hs = [h for h in tr.handlers if any(astq.raised_name(r) == "RequestPath" for r in astq.raises_of(h, nested=False))]
-            if not hs:
-                continue
-            for h in hs:
-                signals |= handler_names(h)
-            for st in tr.body:
-                matcher_calls |= {norm(c.func) for c in astq.calls(st, nested=False)}
-    signals.discard("?")
-    if not signals or not matcher_calls:
-        raise AnalysisError("StateMachineMatcher: no handler that turns a slash signal into RequestPath")
-
-    # (a) every raise of a slash signal
-    proposals = [r for f in funcs for r in walk_no_nested(f) if isinstance(r, ast.Raise) and astq.raised_name(r) in signals]
-    ctx.floor("R12.5", "slash-redirect proposals (raise of the slash signal) in the matcher", len(proposals), 1)
-    for i, r in enumerate(proposals):
-        fn = owner(r)
-        g = graphs[id(fn)]
-        where = owner_fi[id(fn)]
-        loop = astq.enclosing(r, (ast.For,))
-        var = _loop_var(loop) if isinstance(loop, ast.For) else None
-        if not isinstance(loop, ast.For) or var is None or owner(loop) is not fn:
-            raise AnalysisError(f"slash signal raised outside a loop over rules at {where.loc(r)}")
-        head = g.node_of(loop)
-        node = g.node_of(r)
-        if head is None or node is None:
-            raise AnalysisError("CFG node missing for the slash proposal")
-        tag = f"proposal {i + 1} (for {var} in {norm(loop.iter)})"
-        for attr, what in (("methods", "the request method"), ("websocket", "the websocket flag")):
-            edges = _admission_edges(g, loop, var, request_params(fn), attr)
-            reached = node.id in g.reach(head, avoid_edges=edges)
-            if reached:
-                p = g.path(head, node, avoid_edges=edges)
-                fact = (f"no test of `{var}.{attr}` against the request inside the loop" if not edges else f"{len(edges)} admitting edge(s) on `{var}.{attr}`, but this path of one iteration reaches the raise without any: " + (g.fmt_path(p) if p else "?"))
-            else:
-                fact = f"every path of one iteration to the raise takes one of {len(edges)} admitting edge(s): " + ", ".join(f"`{norm(tn.ast)}`={lb}" for tn, lb in edges)
-            ctx.ob("R12.5", f"slash redirect {tag} is proposed only for a rule admitting {what}", not reached, fact, where, r, f"slash proposal {i + 1} admits {attr}")
-
-    # calibration: the same admission pattern guards the rule-returning sites of the sibling loops
-    n_ret = 0
-    for fn in funcs:
-        g = graphs[id(fn)]
-        for ret in (n for n in walk_no_nested(fn) if isinstance(n, ast.Return)):
-            loop = astq.enclosing(ret, (ast.For,))
-            var = _loop_var(loop) if isinstance(loop, ast.For) else None
-            if not isinstance(loop, ast.For) or var is None or not (isinstance(ret.value, ast.Tuple) and ret.value.elts and astq.is_name(ret.value.elts[0], var)):
-                continue
-            head, node = g.node_of(loop), g.node_of(ret)
-            edges = _admission_edges(g, loop, var, request_params(fn), "methods")
-            if head is not None and node is not None and edges and node.id not in g.reach(head, avoid_edges=edges):
-                n_ret += 1
-    ctx.floor("R12.5", "rule-returning sites guarded by the same method admission pattern", n_ret, 2)
-
-    # (b) every RequestPath raised outside the slash-signal handlers
-    n_rp = 0
-    k = 0
-    for fn in funcs:
-        g = graphs[id(fn)]
-        where = owner_fi[id(fn)]
-        rd: ReachingDefs | None = None
-        for r in (n for n in walk_no_nested(fn) if isinstance(n, ast.Raise) and astq.raised_name(n) == "RequestPath"):
-            n_rp += 1
-            h = astq.enclosing(r, (ast.ExceptHandler,))
-            if isinstance(h, ast.ExceptHandler) and handler_names(h) and handler_names(h) <= signals:
-                continue  # vetted by (a)
-            k += 1
-            if rd is None:
-                a = fn.args  # type: ignore[attr-defined]
-                rd = ReachingDefs(g, [x.arg for x in a.posonlyargs + a.args + a.kwonlyargs])
-            node = g.node_of(r)
-            vetted = None
-            for tn, lb in (g.guards(node) if node is not None else []):
-                cp = astq.cmp_parts(tn.ast) if tn.kind == "test" and tn.ast is not None else None
-                if not cp or not isinstance(cp[0], ast.Name) or not astq.is_none(cp[2]):
-                    continue
-                if not ((isinstance(cp[1], ast.Is) and lb == "F") or (isinstance(cp[1], ast.IsNot) and lb == "T")):
-                    continue
-                defs = rd.reaching(tn, cp[0].id)
-                if defs and all(d.kind in ("assign", "walrus") and isinstance(d.value, ast.Call) and norm(d.value.func) in matcher_calls for d in defs):
-                    vetted = f"`{norm(tn.ast)}`={lb} with {cp[0].id} = {norm(next(iter(defs)).value)[:60]}"
-            ctx.ob("R12.5", "merged-slash redirect is proposed only after the merged path matched a rule", vetted is not None,
-                   f"dominated by {vetted}" if vetted else "the raise is not dominated by a `<result of the state machine walk> is not None` edge", where, r, f"merged-slash proposal {k} after a match")
-    ctx.floor("R12.5", "RequestPath raise sites in the matcher", n_rp, 3)
-    ctx.floor("R12.5", "RequestPath sites outside the slash-signal handlers", k, 1)
